@@ -302,6 +302,13 @@ def run(ctx: Ctx, tier: str) -> Result:
         pn = arg_.arg
         role = [r_ for r_, v_ in ba.items() if isinstance(v_, ast.Name) and v_.id == pn]
         here = any(k == "assign" for k, _ in t.local_bindings(reg, pn))
+        if not role:
+            # handed on under another name (a copy made at the boundary): the role whose argument comes from this parameter
+            for r_, v_ in ba.items():
+                ex_ = ctx.expand.expand(v_, reg)
+                if any(("@" + pn) in x for x in ex_):
+                    role = [r_]
+                    here = here or any(x in ("[]", "{}", "()") or (" if @%s is None" % pn) in x or ("@%s or " % pn) in x for x in ex_)
         there = bool(role) and any(k == "assign" for k, _ in t.local_bindings(add, role[0]))
         tolerant = bool(role) and _none_tolerated(ctx, add, role[0])
         if here or there or tolerant:
@@ -389,8 +396,26 @@ def run(ctx: Ctx, tier: str) -> Result:
                 if any(k_ == "param" for k_, _ in bs_) or len(bs_) != 1 or bs_[0][0] != "assign":
                     break
                 src_, hops = bs_[0][1][1], hops + 1
-            fresh = isinstance(src_, (ast.Dict, ast.DictComp)) or (isinstance(src_, ast.Call) and norm(src_.func) in ("dict", "copy.copy", "copy.deepcopy")) or \
-                (isinstance(src_, ast.Call) and isinstance(src_.func, ast.Attribute) and src_.func.attr == "copy")
+            def _fresh(e_, owner_, depth_=0):
+                if isinstance(e_, (ast.Dict, ast.DictComp)):
+                    return True
+                if isinstance(e_, ast.Call) and (norm(e_.func) in ("dict", "copy.copy", "copy.deepcopy") or (isinstance(e_.func, ast.Attribute) and e_.func.attr == "copy")):
+                    return True
+                if isinstance(e_, ast.Call) and depth_ < 2:
+                    # a helper of the builders that puts the mapping together: each of its returns is a new mapping
+                    hs_ = t.resolve_call(e_, owner_).repo
+                    if len(hs_) == 1 and not t.resolve_call(e_, owner_).ctor:
+                        rets_ = [r_ for r_ in t.nodes_in(hs_[0], ast.Return) if r_.value is not None]
+                        vals_ = []
+                        for r_ in rets_:
+                            v_ = r_.value
+                            if isinstance(v_, ast.Name):
+                                lb_ = t.local_bindings(hs_[0], v_.id)
+                                v_ = lb_[0][1][1] if lb_ and all(k_ == "assign" for k_, _ in lb_) and lb_[0][1][2] is None else v_
+                            vals_.append(v_)
+                        return bool(vals_) and all(_fresh(v_, hs_[0], depth_ + 1) for v_ in vals_)
+                return False
+            fresh = _fresh(src_, bf)
             if fresh:
                 res.ok("C13.ARGS", {"%s: the action's configuration is a mapping made by the builder" % bf.name: norm(src_)[:40]})
             else:
@@ -400,4 +425,6 @@ def run(ctx: Ctx, tier: str) -> Result:
     from .common import borrow
     borrow(ctx, res, tier, "c12", ("C12.APPLY",), "C13.INSTALL", "the trigger handler installs every published tracepoint (registered ones alongside the service's)")
     borrow(ctx, res, tier, "c03", ("C03.LOOP",), "C13.ALONGSIDE", "every installed tracepoint of a location acts there (a registration is not shadowed by another tracepoint of the line)")
+    borrow(ctx, res, tier, "c20", ("C20.ISO",), "C13.ALONGSIDE", "the results of the tracepoints sharing a hit are handed over each in its own guard: a failing "
+           "hand-over of a service tracepoint does not cost the registered tracepoint's snapshot")
     return res
